@@ -97,6 +97,7 @@ def make(B, integ_name, n=2, neq=1, islinear=0, **kw):
     model = Model(neq, islinear)
     mesh = Mesh(B, n)
     disc = RHSStub(B, n, neq, **kw)
+    disc.model, disc.mesh = model, mesh          # what a real discretisation object exposes
     cls = getattr(fd.integration, integ_name)
     solver = cls(mesh, disc)
     return solver, disc, model, mesh
